@@ -25,9 +25,9 @@ ID = 'C14'
 LEVEL = 'exploration'
 N = {'quick': 60000, 'thorough': 1500000}
 RULE = ('values (all signs, zero, carries, huge) x Fixed/Guarded/Rational x precision/guard/display, and complete counts whose '
-        'JSON figures are compared with the reference printer; non-trivial = negative value, or a carry across the decimal '
+        'JSON, text-report and dump figures (candidate lines, per-method totals, header quota) are compared with the reference printer, 35 % of guarded counts with guard digits on display; non-trivial = negative value, or a carry across the decimal '
         'point, or display digits != precision (values); a count with a fractional transfer value or Meek iteration (counts)')
-TECHNIQUE = 'property-based testing against a reference printer (floor(x*10^d+1/2) from the exact value); metamorphic display change on counts'
+TECHNIQUE = 'property-based testing against a reference printer (floor(x*10^d+1/2) from the exact value) applied to str() and to parsed JSON / report / dump figures; metamorphic display change on counts'
 LEVEL_TEXT = 'generated values and counts compared with an independently written printer; sampling, no proof'
 LEVEL_NOTE = ('trusts fractions.Fraction and json; for d = 0 only the denoted value is pinned (droop prints "5.0"), the layout of a '
               'zero-digit numeral is not part of the property')
